@@ -303,6 +303,12 @@ void SCPI_InitHeap(scpi_t * context,
 }
 #endif
 
+#ifdef SCPI_PARSER_VERIF
+/* verification hook: lets a harness (un)poison the unused tail of the input buffer
+ * where: 0 = entry, 1 = buffer NUL-terminated at position, 2 = executed message removed */
+extern void scpi_verif_input_tail(scpi_t * context, int where);
+#endif
+
 /**
  * Interface to the application. Adds data to system buffer and try to search
  * command line termination. If the termination is found or if len=0, command
@@ -318,8 +324,14 @@ scpi_bool_t SCPI_Input(scpi_t * context, const char * data, int len) {
     size_t totcmdlen = 0;
     int cmdlen = 0;
 
+#ifdef SCPI_PARSER_VERIF
+    scpi_verif_input_tail(context, 0);
+#endif
     if (len == 0) {
         context->buffer.data[context->buffer.position] = 0;
+#ifdef SCPI_PARSER_VERIF
+        scpi_verif_input_tail(context, 1);
+#endif
         result = SCPI_Parse(context, context->buffer.data, context->buffer.position);
         context->buffer.position = 0;
     } else {
@@ -336,6 +348,9 @@ scpi_bool_t SCPI_Input(scpi_t * context, const char * data, int len) {
         memcpy(&context->buffer.data[context->buffer.position], data, len);
         context->buffer.position += len;
         context->buffer.data[context->buffer.position] = 0;
+#ifdef SCPI_PARSER_VERIF
+        scpi_verif_input_tail(context, 1);
+#endif
 
 
         while (1) {
@@ -347,6 +362,9 @@ scpi_bool_t SCPI_Input(scpi_t * context, const char * data, int len) {
                 memmove(context->buffer.data, context->buffer.data + totcmdlen, context->buffer.position - totcmdlen);
                 context->buffer.position -= totcmdlen;
                 totcmdlen = 0;
+#ifdef SCPI_PARSER_VERIF
+                scpi_verif_input_tail(context, 2);
+#endif
             } else {
                 if (context->parser_state.programHeader.type == SCPI_TOKEN_UNKNOWN
                         && context->parser_state.termination == SCPI_MESSAGE_TERMINATION_NONE) break;
